@@ -68,6 +68,9 @@ package storage
 //@   requires b != nil
 //@   at call DirFS#1: assert arg0 == filepath.Join(b.dir, b.bucket)
 //@   at call WalkDir#1: assert arg1 == "."
+// The prefix the names are compared with is the one that was asked for, as given
+// (a prefix is a string prefix of the whole name, not a path to be cleaned).
+//@   at call WalkDir#1: assert prefix == old(prefix)
 //@   ensures result != nil
 //@   modifies nothing
 
